@@ -27,17 +27,17 @@ THEOREMS = [
     "Ffcx.C06.width_on_types",
     "Ffcx.C06.ids_sorted",
     "Ffcx.C06.triples_preserved",
-    "Ffcx.C06.offsets_delimit_partial",
-    "Ffcx.C06.offsets_delimit_counterexample",
-    "Ffcx.C06.offsets_delimit_counterexample_min",
-    "Ffcx.C06.kernels_of_type_partial",
+    "Ffcx.C06.offsets_delimit",
+    "Ffcx.C06.prism_offsets",
+    "Ffcx.C06.kernels_of_type",
     "Ffcx.C06.expand_ids",
     "Ffcx.C06.listed_iff",
     "Ffcx.C06.formIR_accepts",
     "Ffcx.C06.formIR_rejects",
-    "Ffcx.C06.minus_one_only_otherwise_partial",
-    "Ffcx.C06.minus_one_only_otherwise_counterexample",
-    "Ffcx.C06.dispatch_partial",
+    "Ffcx.C06.formIR_rejects_message",
+    "Ffcx.C06.minus_one_only_otherwise",
+    "Ffcx.C06.explicit_minus_one_rejected",
+    "Ffcx.C06.dispatch",
     "Ffcx.Layout.argsortStable_isArgsort",
 ]
 
@@ -153,7 +153,7 @@ def fam_dropped():
 
 
 def fam_rules_shared():
-    """DESIGN §7 F14: two rules under one id sharing a coefficient sub-expression"""
+    """DESIGN §7 F14 (fixed in /repo): two rules under one id sharing a coefficient sub-expression"""
     m, V = corpus.space("triangle", "P", 2)
     v = ufl.TestFunction(V)
     f = ufl.Coefficient(V)
@@ -183,15 +183,8 @@ def fam_interleaved():
     ]
 
 
-def fam_minus_one():
-    m, V = corpus.space("triangle", "P", 1)
-    u, v = ufl.TrialFunction(V), ufl.TestFunction(V)
-    f = ufl.Coefficient(V)
-    return [Term(u * v, "cell", -1), Term(f * u * v, "cell", None)]
-
-
 def fam_prism_ds():
-    """DESIGN §7 F6"""
+    """DESIGN §7 F6 (fixed in /repo): two facet cell types, then another integral type"""
     m, V = corpus.space("prism", "P", 1)
     u, v = ufl.TrialFunction(V), ufl.TestFunction(V)
     return [Term(u * v, "exterior_facet", 1), Term(2 * u * v, "exterior_facet", 2), Term(u * v, "vertex", None)]
@@ -207,7 +200,7 @@ def fam_prism_ok():
 FAMILIES = [
     ("tri_many", fam_tri_many), ("tet_rank1", fam_tet_rank1), ("interval", fam_interval), ("functional", fam_functional),
     ("dropped", fam_dropped), ("rules_shared", fam_rules_shared), ("rules_distinct", fam_rules_distinct),
-    ("interleaved", fam_interleaved), ("minus_one", fam_minus_one), ("prism_ds", fam_prism_ds), ("prism_ok", fam_prism_ok),
+    ("interleaved", fam_interleaved), ("prism_ds", fam_prism_ds), ("prism_ok", fam_prism_ok),
 ]
 
 
@@ -465,7 +458,7 @@ def correspond_synthetic(chk, d, state):
             same = reply[0] == "ok" and [[(int(i), nn, ints(dd)) for i, nn, dd in g] for g in reply[1]] == impl[1]
         else:
             mcls = "KeyError" if reply[0] == "error" and reply[1].startswith("KeyError") else "ValueError"
-            same = reply[0] == "error" and mcls == impl[1] and (impl[1] == "KeyError" or "min()" in reply[1] or reply[1] == impl[2])
+            same = reply[0] == "error" and mcls == impl[1] and (impl[1] == "KeyError" or reply[1] == impl[2])
         if not same:
             chk.disagree("_compute_form_ir(synthetic)", {"input": itgs, "model": reply, "impl": impl})
         flat = [s for _, ss, _, _ in itgs for s in ss]
@@ -704,6 +697,73 @@ def readback_and_sum(chk, d, state):
                         chk.hist["sum-kernels-per-id:" + str(len(rows))] = chk.hist.get("sum-kernels-per-id:" + str(len(rows)), 0) + 1
 
 
+def probe_negative_ids(chk, d):
+    """user ids < 0 (alone, in tuples, next to 'everywhere') must be rejected; the search key for an accepted
+    explicit -1 stays armed"""
+    m, V = corpus.space("triangle", "P", 1)
+    u, v = ufl.TrialFunction(V), ufl.TestFunction(V)
+    f = ufl.Coefficient(V)
+    cases = [
+        ("dx(-1)+dx", lambda: u * v * ufl.dx(-1) + f * u * v * ufl.dx, [-1]),
+        ("dx(-1)", lambda: u * v * ufl.dx(-1), [-1]),
+        ("ds((2,-1))", lambda: u * v * ufl.ds((2, -1)) + u * v * ufl.dx, [2, -1]),
+        ("dx(-2)", lambda: u * v * ufl.dx(-2), [-2]),
+        ("dS((0,-7))", lambda: u("+") * v("-") * ufl.dS((0, -7)), [0, -7]),
+    ]
+    for name, build, sids in cases:
+        form = build()
+        try:
+            with warnings.catch_warnings():
+                warnings.simplefilter("ignore")
+                an, ir = pipeline.compute([form])
+            accepted, msg = True, None
+        except ValueError as ex:
+            accepted, msg = False, str(ex)
+        model = d.ask(f"(formir ((cell {sx(sids)} k (2))))")
+        if accepted:
+            if model[0] != "ok":
+                chk.disagree("_compute_form_ir accepts a negative id", {"form": name, "model": model})
+            listed = {t: [int(i) for i in ir.forms[0].subdomain_ids[t]] for t in TYPES if ir.forms[0].subdomain_ids[t]}
+            key = KEY_MINUS_ONE if -1 in sids else f"formir:negative-id-accepted:{name}"
+            _viol(chk, key, "an explicit negative subdomain id is accepted" + (" and its kernel is listed in the 'everywhere' slot -1" if -1 in sids else ""),
+                  {"form": name, "ufl": str(form)[:300], "subdomain_ids": listed})
+        else:
+            if model[0] != "error" or model[1] != msg:
+                chk.disagree("_compute_form_ir rejection", {"form": name, "model": model, "impl": msg})
+        chk.case("negative-id", key=f"{name}|{'accepted' if accepted else 'rejected'}")
+
+
+def named_objects(chk):
+    """name maps and the form alias when the UFL file names its objects (`object_names`), codegen only"""
+    import ffcx.compiler
+    import ffcx.options
+
+    m, V = corpus.space("triangle", "P", 1)
+    f, g, h = ufl.Coefficient(V), ufl.Coefficient(V), ufl.Coefficient(V)
+    k1, k2 = ufl.Constant(m), ufl.Constant(m, shape=(2,))
+    v = ufl.TestFunction(V)
+    J = (f * f * h + g) * k2[1] * ufl.dx + k1 * f * ufl.ds(2)
+    F = ufl.derivative(J, f, v)  # g drops out; constants stay in original order (k1, k2)
+    names = {id(f): "temperature", id(h): "kappa", id(g): "gone", id(k2): "beta", id(F): "residual"}
+    code, _ = ffcx.compiler.compile_ufl_objects([F], options=ffcx.options.get_options({}), object_names=names, namespace="ns")
+    src = code[1]
+    cn = re.search(r"coefficient_names_form_\w+\[(\d+)\] = \{([^}]*)\}", src)
+    kn = re.search(r"constant_names_form_\w+\[(\d+)\] = \{([^}]*)\}", src)
+    got = {
+        "coefficient_names": [x.strip().strip('"') for x in cn.group(2).split(",")] if cn else [],
+        "constant_names": [x.strip().strip('"') for x in kn.group(2).split(",")] if kn else [],
+        "alias": bool(re.search(r"ufcx_form\* form_ns_residual = &form_", src)),
+        "positions": [int(x) for x in re.search(r"original_coefficient_position_form_\w+\[\d+\] = \{([^}]*)\}", src).group(1).split(",")],
+    }
+    # expected from the UFL form: reduced coefficients (f, h) at original positions 0 and 2; constants by count
+    kexp = ["beta" if q is k2 else f"c{j}" for j, q in enumerate(F.constants())]
+    exp = {"coefficient_names": ["temperature", "kappa"], "constant_names": kexp, "alias": True, "positions": [0, 2]}
+    if got != exp:
+        _viol(chk, "descriptor:named-objects", "name maps / alias / positions of a form with named objects disagree with the UFL file",
+              {"descriptor": got, "expected": exp})
+    chk.case("named-objects", key="derivative-drops-middle-coefficient")
+
+
 # =============================================================================== entry point
 def run(chk):
     chk.rule = ("real FormIRs: every form of the corpus/demos/seeded generators and of the dispatch families (ints, tuples, everywhere, "
@@ -742,6 +802,8 @@ def run(chk):
             t0 = time.time()
             fn(chk, d, state)
             tm[nm] = round(time.time() - t0, 1)
+        probe_negative_ids(chk, d)
+        named_objects(chk)
         chk.notes["phase_s"] = tm
     if chk.tier == "thorough":
         chk.leanchecker(["FfcxProofs.C06", "FfcxProofs.Lemmas.Layout"])
